@@ -125,18 +125,23 @@ func runC14(p *Prog, r *Report) {
 			}
 		}
 	}
-	if bm := p.Func("generator.(*generator).buildMethod"); bm != nil {
-		binfo := bm.Pkg.TypesInfo
+	if region := p.Region("generator.(*generator).buildMethod"); region != nil {
 		var rng *ast.RangeStmt
-		ast.Inspect(bm.Decl, func(n ast.Node) bool {
-			if rs, ok := n.(*ast.RangeStmt); ok && rng == nil && isFieldSel(binfo, rs.X, modPath+"/method", "Parameters", "RawArgs") {
-				rng = rs
-			}
-			return true
-		})
+		var bm *FuncInfo
+		for _, f := range region {
+			binfo := f.Pkg.TypesInfo
+			ast.Inspect(f.Decl, func(n ast.Node) bool {
+				if rs, ok := n.(*ast.RangeStmt); ok && rng == nil && isFieldSel(binfo, rs.X, modPath+"/method", "Parameters", "RawArgs") {
+					rng = rs
+					bm = f
+				}
+				return true
+			})
+		}
 		if rng == nil {
-			r.Bad("generator.(*generator).buildMethod/params", p.PosStr(bm.Decl.Pos()), "buildMethod does not range over RawArgs: emitted parameters would not follow the declared order")
+			r.Bad("generator.(*generator).buildMethod/params", p.PosStr(region[0].Decl.Pos()), "buildMethod does not range over RawArgs: emitted parameters would not follow the declared order")
 		} else {
+			binfo := bm.Pkg.TypesInfo
 			var sw *ast.SwitchStmt
 			for _, s := range rng.Body.List {
 				if x, ok := s.(*ast.SwitchStmt); ok {
@@ -149,9 +154,13 @@ func runC14(p *Prog, r *Report) {
 					cc := c.(*ast.CaseClause)
 					nApp, isPanic := 0, false
 					ast.Inspect(cc, func(m ast.Node) bool {
-						if as, ok := m.(*ast.AssignStmt); ok && len(as.Lhs) == 1 {
-							if id, ok := ast.Unparen(as.Lhs[0]).(*ast.Ident); ok && id.Name == "args" {
-								nApp++
+						if as, ok := m.(*ast.AssignStmt); ok && len(as.Lhs) == 1 && len(as.Rhs) == 1 {
+							if call, ok := ast.Unparen(as.Rhs[0]).(*ast.CallExpr); ok && len(call.Args) == 2 {
+								if b, ok := calleeObj(binfo, call).(*types.Builtin); ok && b.Name() == "append" && exprString(call.Args[0]) == exprString(as.Lhs[0]) {
+									if ch, ok := chainOf(binfo, call.Args[1]); ok && ch.Root == nil && ch.Links[0].Name == "Id" && len(ch.Links) >= 2 && ch.Links[1].Name == "Add" {
+										nApp++
+									}
+								}
 							}
 						}
 						if call, ok := m.(*ast.CallExpr); ok {
@@ -185,6 +194,62 @@ func runC14(p *Prog, r *Report) {
 type guardSpec struct {
 	name string
 	test func(info *types.Info, cond ast.Expr) bool
+}
+
+// clauseRejects: the statement list ends in a return whose last result is not a zero literal
+// (nil, "", false): the declaration is rejected. For (nil, error) shapes see returnsNilErr.
+func clauseRejects(info *types.Info, list []ast.Stmt) bool {
+	if len(list) == 0 {
+		return false
+	}
+	ret, ok := list[len(list)-1].(*ast.ReturnStmt)
+	if !ok || len(ret.Results) == 0 {
+		return false
+	}
+	last := ast.Unparen(ret.Results[len(ret.Results)-1])
+	if id, ok := last.(*ast.Ident); ok && (id.Name == "nil" || id.Name == "false") {
+		return false
+	}
+	if s, ok := constString(info, last); ok && s == "" {
+		return false
+	}
+	return true
+}
+
+// helperResultRejected: in anchor, the result of calling helper h is tested and leads to return (nil, error).
+func helperResultRejected(p *Prog, anchor, h *FuncInfo) bool {
+	if h == anchor {
+		return true
+	}
+	info := anchor.Pkg.TypesInfo
+	ok := false
+	ast.Inspect(anchor.Decl, func(n ast.Node) bool {
+		ifs, isIf := n.(*ast.IfStmt)
+		if !isIf {
+			return true
+		}
+		calls := false
+		check := func(m ast.Node) {
+			if m == nil {
+				return
+			}
+			ast.Inspect(m, func(q ast.Node) bool {
+				if c, isC := q.(*ast.CallExpr); isC {
+					if f, isF := calleeObj(info, c).(*types.Func); isF && f == h.Obj {
+						calls = true
+					}
+				}
+				return true
+			})
+		}
+		check(ifs.Init)
+		check(ifs.Cond)
+		if calls && returnsNilErr(info, ifs.Body) {
+			ok = true
+		}
+		return true
+	})
+	return ok
 }
 
 func c14R2(p *Prog, r *Report, fi *FuncInfo) {
@@ -231,20 +296,27 @@ func c14R2(p *Prog, r *Report, fi *FuncInfo) {
 		}},
 	}
 	site := func(g string) string { return "method.Parse/guard: " + g }
+	region := p.Region("method.Parse")
 	findGuard := func(test func(info *types.Info, cond ast.Expr) bool) (*ast.IfStmt, bool) {
 		var hit *ast.IfStmt
 		errRet := false
-		ast.Inspect(fi.Decl, func(n ast.Node) bool {
-			ifs, ok := n.(*ast.IfStmt)
-			if !ok || hit != nil {
+		for _, f := range region {
+			ast.Inspect(f.Decl, func(n ast.Node) bool {
+				ifs, ok := n.(*ast.IfStmt)
+				if !ok || hit != nil {
+					return true
+				}
+				if test(info, ifs.Cond) {
+					hit = ifs
+					if f == fi {
+						errRet = returnsNilErr(info, ifs.Body)
+					} else {
+						errRet = clauseRejects(info, ifs.Body.List) && helperResultRejected(p, fi, f)
+					}
+				}
 				return true
-			}
-			if test(info, ifs.Cond) {
-				hit = ifs
-				errRet = returnsNilErr(info, ifs.Body)
-			}
-			return true
-		})
+			})
+		}
 		return hit, errRet
 	}
 	for _, g := range guards {
@@ -339,23 +411,34 @@ func c14R2(p *Prog, r *Report, fi *FuncInfo) {
 		for name, test := range checks {
 			ok := false
 			var where ast.Node = fi.Decl
-			ast.Inspect(fi.Decl, func(n ast.Node) bool {
-				switch x := n.(type) {
-				case *ast.CaseClause:
-					if len(x.List) == 1 && test(info, x.List[0]) && len(x.Body) > 0 {
-						if ret, isRet := x.Body[len(x.Body)-1].(*ast.ReturnStmt); isRet && retIsNilErr(info, ret) {
+			for _, f := range region {
+				f := f
+				rejects := func(list []ast.Stmt) bool {
+					if f == fi {
+						if len(list) == 0 {
+							return false
+						}
+						ret, isRet := list[len(list)-1].(*ast.ReturnStmt)
+						return isRet && retIsNilErr(info, ret)
+					}
+					return clauseRejects(info, list) && helperResultRejected(p, fi, f)
+				}
+				ast.Inspect(f.Decl, func(n ast.Node) bool {
+					switch x := n.(type) {
+					case *ast.CaseClause:
+						if len(x.List) == 1 && test(info, x.List[0]) && rejects(x.Body) {
+							ok, where = true, x
+						}
+					case *ast.IfStmt:
+						if test(info, x.Cond) && rejects(x.Body.List) {
 							ok, where = true, x
 						}
 					}
-				case *ast.IfStmt:
-					if test(info, x.Cond) && returnsNilErr(info, x.Body) {
-						ok, where = true, x
-					}
-				}
-				return true
-			})
+					return true
+				})
+			}
 			if ok {
-				r.OK(site(name), p.PosStr(where.Pos()), "returns (nil, error)")
+				r.OK(site(name), p.PosStr(where.Pos()), "rejected with an error")
 			} else {
 				r.Bad(site(name), p.PosStr(fi.Decl.Pos()), "validation missing")
 			}
